@@ -328,12 +328,13 @@ fn random_kind(r: &mut Rng, tier: Tier, index: u64) -> Kind {
                 },
                 seed: r.next_u64(),
                 n_wires: if r.chance(1, 4) { 256 } else { r.usize(1, 30) },
-                n_pad_msgs: r.usize(0, 3),
+                n_pad_msgs: { let n = r.usize(0, 3); if (index / 10) % 2 == 0 { n.max(2) + (index / 20 % 2) as usize } else { n } },
                 long_only: r.chance(1, 2),
                 pad_start: None,
                 suppressed_only: false,
             },
-            slot: r.usize(0, 35),
+            // (every inconsistency of the list in turn, so that the quick tier delivers each of them)
+            slot: { let _ = r.usize(0, 36); ((index / 10) % 37) as usize },
         },
     }
 }
@@ -511,6 +512,9 @@ impl Check for C09Check {
         stats.executions += 1;
         stats.probe(&format!("mode:{}", scn.mode));
         stats.fault(&format!("event:{}", kind_name(&scn.kind)));
+        if let Some(k) = evfault_kind(&scn.kind, scn.seed) {
+            stats.fault(&format!("evfault:{k}"));
+        }
         match reconstruct(run, &banks) {
             Ok((built, n_av, vtx)) => {
                 log.u64(built as u64).u64(n_av as u64).u64(vtx as u64);
@@ -703,6 +707,19 @@ fn kind_banks_hits(r: &mut Rng, pattern: u8, n: usize, run: Option<u32>) -> (u32
             // half of the events are taken with the ADC data suppression on: wires of unequal length
             let supp = if r.chance(1, 2) { Some(r.next_u64()) } else { None };
             (run, fwd::banks_of_run_supp(&sig, run, r.next_u32(), if exact { 0.0 } else { noise }, r.next_u64(), 30000, supp))
+}
+
+/// The event-builder inconsistency an `EvFault` event carries (None: another kind of event, or the
+/// fault does not apply to this base event and the event is the consistent one).
+pub fn evfault_kind(kind: &Kind, seed: u64) -> Option<&'static str> {
+    let Kind::EvFault { base, slot } = kind else { return None };
+    let f = all_faults(&mut Rng::new(seed ^ 0xF)).into_iter().nth(*slot)?;
+    let mut ev = build_base(base);
+    if apply_fault(&mut ev, &f, base.run) {
+        Some(f.kind())
+    } else {
+        None
+    }
 }
 
 pub fn kind_name(k: &Kind) -> &'static str {
